@@ -101,9 +101,10 @@ add("C05", "no silent truncation",
     "trusted: engine translation (incl. the real bufio.Reader executed from SSA), transport fault model")
 
 add("C06", "read limit",
-    [H("vfH_limit_history", ["limit-history-end"]), H("vfH_read_step_data", ["step-accepted", "step-limit-error"], 500), H("vfH_violation_after_message", ["violation-after-message-end"]), TWIN("vfH_limit_history")],
+    [H("vfH_limit_history", ["limit-history-end"]), H("vfH_read_step_data", ["step-accepted", "step-limit-error"], 500), H("vfH_violation_after_message", ["violation-after-message-end"]), H("vfH_frame_nopanic", ["frame-nopanic-end"], 400), TWIN("vfH_limit_history")],
     [H("vfH_read_step_data", ["step-limit-error"], 1800, {"tier": 1})],
     ["inductive arithmetic: limit L, running length and the frame's claimed length fully symbolic (all 64-bit values incl. top bit set and sums that overflow), every allocation on the path bounded by 600 bytes (AllocBound)",
+     "memory never depends on the claimed length: one data frame claiming 1, 2 or >= 16384 bytes (up to 2^64-1, every length form) followed by 2 payload bytes, with no limit / limit 64 / limit 2^40, read by ReadMessage, NextReader+Read and JoinMessages under an allocation bound of 1100 bytes",
      "histories: symbolic limit 1..12; message A (5 fragmentations, optional ping) read fully / one byte / not at all; message B within the limit; message C over the limit; both roles; chunking max / 1 byte"],
     ["allocations inside stubbed code (io.CopyN's pooled 8 KiB discard buffer is real and constant)", "histories longer than 3 messages (covered by the inductive step for the arithmetic)"],
     ASSUME_COMMON + [CLOCK], STUB_COMMON,
